@@ -410,9 +410,11 @@ func (env *Zlisp) StandardSetup() {
 	_, err = env.EvalString(rangeMacro)
 	panicOn(err)
 
-	reqMacro := `(defmac req [a] ^(source (sym2str (quote ~a))))`
-	_, err = env.EvalString(reqMacro)
-	panicOn(err)
+	if !env.sandboxed {
+		reqMacro := `(defmac req [a] ^(source (sym2str (quote ~a))))`
+		_, err = env.EvalString(reqMacro)
+		panicOn(err)
+	}
 
 	incrMacro := `(defmac ++ [a] ^(set ~a (+ ~a 1)))`
 	_, err = env.EvalString(incrMacro)
